@@ -190,6 +190,18 @@ fn text_family(o: &mut Out, r: &mut Rng, th: bool) {
             }
         }
     }
+    // strings made (almost) only of padding, of whitespace, of one symbol; all lengths around multiples of 4
+    for codec in ["pubkey", "ct", "aect", "gct2", "p-pubkey", "p-range64"] {
+        for k in (1..=12usize).chain([43, 44, 45, 48, 88, 128].into_iter()) {
+            for prefix in ["", "A", "AA", "AAA", "AAAA", "=A", "A=A"] {
+                let t = format!("{}{}", prefix, "=".repeat(k));
+                o.op(&format!("fromstr.{}.padding-only", codec), &format!("fromstr {} {}", codec, hex(t.as_bytes())));
+            }
+        }
+        for t in ["", " ", "\n", "    ", "AAAA", "////", "++++", "A", "AA", "AAA", "\0\0\0\0", "=\n=="] {
+            o.op(&format!("fromstr.{}.degenerate", codec), &format!("fromstr {} {}", codec, if t.is_empty() { "-".to_string() } else { hex(t.as_bytes()) }));
+        }
+    }
     // JSON key files
     let json = |v: &[u8]| -> String { format!("[{}]", v.iter().map(|x| x.to_string()).collect::<Vec<_>>().join(",")) };
     for (codec, n) in [("keypair", 64usize), ("pubkey", 32), ("secret", 32), ("aekey", 16)] {
@@ -462,6 +474,14 @@ pub fn gen_c09(o: &mut Out, tier: &str, seed: u64) {
     let mut r = Rng::new(seed, "c09");
     let th = tier == "thorough";
     let reps = if th { 30 } else { 2 };
+    // randomized grouped encryption with every arrangement of (possibly coinciding) key objects
+    for pattern in ["", "0", "00", "01", "10", "000", "001", "010", "011", "100", "012", "021", "101", "110", "122", "221"] {
+        for a in [0u64, 1, 65535, (1 << 32) - 1, 1 << 32, u64::MAX] {
+            if !th && pattern.len() == 3 && a != 65535 && a != (1 << 32) - 1 { continue; }
+            let ss: Vec<String> = (0..3).map(|_| hs(&rand_nonzero(&mut r))).collect();
+            o.op_exp("grouped.random-opening", "ok", &format!("elg grand {} {} {}", a, if pattern.is_empty() { "-" } else { pattern }, ss.join(" ")));
+        }
+    }
     // handle extraction from the Pod form by index: every out-of-range index is an error
     extract_family(o, &mut r, th);
     for _ in 0..reps {
@@ -549,6 +569,19 @@ pub fn gen_c13(o: &mut Out, tier: &str, seed: u64) {
         for sp in specials.iter() {
             for k in keys.iter().chain(std::iter::once(&kb)) {
                 o.op_exp("special-ciphertext", "none", &format!("ae dec {} {}", hex(k), hex(sp)));
+            }
+        }
+    }
+    // ciphertexts of an independent encryptor with special nonces (all zero, all ones, a single bit, a counter)
+    {
+        let mut nonces: Vec<Vec<u8>> = vec![vec![0u8; 12], vec![0xffu8; 12]];
+        for i in [0usize, 11] { let mut n = vec![0u8; 12]; n[i] = 1; nonces.push(n); let mut n = vec![0u8; 12]; n[i] = 0x80; nonces.push(n); }
+        nonces.push((0u8..12).collect());
+        for k in keys.iter() {
+            for n in nonces.iter() {
+                for a in [0u64, 1, u64::MAX] {
+                    o.op("model-encrypted.special-nonce", &format!("ae mencrypt {} {} {}", hex(k), a, hex(n)));
+                }
             }
         }
     }
